@@ -34,6 +34,12 @@ type specEnv struct {
 	loop    *loopInfo // clause attached to this loop: its body's variables shadow outer ones
 	nextOf  map[string]Val // iteration clauses: next(x) = the value the loop-carried variable x takes at this back edge
 	depth   int       // > 0 while evaluating the contract of a pure function used inside a contract
+	// pol: +1 while evaluating a formula that is to be proved, -1 one that is assumed, 0 unknown. The ground instances
+	// that are added to a bounded forall are redundant; as conjuncts of a goal each of them has to be proved again,
+	// which sometimes helps the solvers and sometimes sends them astray: under a forall that is to be proved they
+	// are wrapped in govc_opt(...), which the first formulation of a query defines as `true` and the second as the
+	// identity (see Obligation.Query).
+	pol int
 }
 
 func specErr(format string, a ...any) unsupportedErr {
@@ -241,7 +247,9 @@ func (e *specEnv) eval(x SExpr) specVal {
 		}
 		return n.eval(t.X)
 	case SIte:
-		c := e.evalBool(t.C)
+		nc := *e
+		nc.pol = 0
+		c := nc.evalBool(t.C)
 		a, b := e.eval(t.A), e.eval(t.B)
 		ty := a.T
 		if ty == nil || isUntyped(ty) {
@@ -249,6 +257,12 @@ func (e *specEnv) eval(x SExpr) specVal {
 		}
 		return specVal{V: valIte(c, e.coerce(a, ty), e.coerce(b, ty), defaultType(ty)), T: ty}
 	case SUn:
+		if t.Op == "!" {
+			nn := *e
+			nn.pol = -e.pol
+			a := nn.eval(t.X)
+			return specVal{V: Sc{Not(a.V.(Sc).T)}, T: types.Typ[types.Bool]}
+		}
 		a := e.eval(t.X)
 		switch t.Op {
 		case "!":
@@ -519,6 +533,43 @@ func (e *specEnv) ident(name string) specVal {
 		if found != nil && !ambiguous {
 			return specVal{V: v.value(e.fr, found), T: found.Type()}
 		}
+		if ambiguous && e.loop != nil {
+			// a variable that this loop does not carry: it has one value while the loop runs, the one that reaches
+			// the loop head
+			if rv := reachingAtLoopHead(fn, e.loop.header, name, e.fr); rv != nil {
+				return specVal{V: v.value(e.fr, rv), T: rv.Type()}
+			}
+		}
+		if ambiguous && e.loop == nil && e.result != nil && e.depth == 0 && len(e.fr.rets) > 0 && found != nil {
+			// a postcondition: at each return the variable holds the value that reaches it (an unknown value where
+			// the variable is not in scope)
+			rets := e.fr.rets
+			vals := make([]Val, len(rets))
+			okAll := true
+			for i, r := range rets {
+				rv, inScope := reachingAt(fn, fn.Blocks[r.blk], true, name, e.fr)
+				if !inScope {
+					vals[i] = v.scalarizeVal(v.freshTyped("outofscope."+name, found.Type(), e.st, r.reach))
+					continue
+				}
+				if rv == nil {
+					okAll = false
+					break
+				}
+				vals[i] = v.scalarizeVal(v.value(e.fr, rv))
+				if !types.Identical(rv.Type(), found.Type()) {
+					okAll = false
+					break
+				}
+			}
+			if okAll {
+				cur := vals[len(rets)-1]
+				for i := len(rets) - 2; i >= 0; i-- {
+					cur = valIte(rets[i].reach, vals[i], cur, found.Type())
+				}
+				return specVal{V: cur, T: found.Type()}
+			}
+		}
 		if ambiguous {
 			panic(specErr("local variable %q denotes several values in %s; name a phi or use a parameter", name, FuncKey(fn)))
 		}
@@ -726,13 +777,22 @@ func (e *specEnv) binary(b SBin) specVal {
 	case "||":
 		return specVal{V: Sc{Or(e.evalBool(b.L), e.evalBool(b.R))}, T: boolT}
 	case "==>":
-		l := e.evalBool(b.L)
+		nl := *e
+		nl.pol = -e.pol
+		l := nl.evalBool(b.L)
 		n := *e
 		n.guard = And(e.g(), l)
 		return specVal{V: Sc{Implies(l, n.evalBool(b.R))}, T: boolT}
 	case "<==>":
-		return specVal{V: Sc{Eq(e.evalBool(b.L), e.evalBool(b.R))}, T: boolT}
+		n0 := *e
+		n0.pol = 0
+		return specVal{V: Sc{Eq(n0.evalBool(b.L), n0.evalBool(b.R))}, T: boolT}
 	case "==", "!=":
+		if e.pol != 0 {
+			n0 := *e
+			n0.pol = 0
+			return n0.binary(b)
+		}
 		neg := func(t Term) specVal {
 			if b.Op == "!=" {
 				t = Not(t)
@@ -885,7 +945,9 @@ func (e *specEnv) quant(q SQuant) specVal {
 	}
 	n := e.with(q.Var, bv)
 	n.guard = And(e.g(), rng)
-	res := v.underBinder(sym(name), sort, rng, q.Forall, q.VarType == nil, func() Term { return n.evalBool(q.Body) })
+	inst := q.VarType == nil
+	v.optInst = q.Forall && e.pol > 0 // instances of a forall that is to be proved: only in the second formulation of the goal
+	res := v.underBinder(sym(name), sort, rng, q.Forall, inst, func() Term { return n.evalBool(q.Body) })
 	return specVal{V: Sc{Term{res, SBool}}, T: types.Typ[types.Bool]}
 }
 
@@ -895,6 +957,8 @@ func (e *specEnv) quant(q SQuant) specVal {
 // asserts that mention it are dropped (they only add assumptions). For Int binders with a range, ground
 // instances at the index terms used by the code are added (logically redundant).
 func (v *FnVC) underBinder(bsym string, sort Sort, rng Term, forall bool, instantiate bool, body func() Term) string {
+	optInst := v.optInst
+	v.optInst = false
 	mark := len(v.sc.lines)
 	bodyT := body()
 	leaked := append([]string(nil), v.sc.lines[mark:]...)
@@ -960,7 +1024,9 @@ func (v *FnVC) underBinder(bsym string, sort Sort, rng Term, forall bool, instan
 			}
 		}
 		if len(insts) > 0 {
-			if forall {
+			if forall && optInst {
+				res = fmt.Sprintf("(and %s (govc_opt (and %s)))", res, strings.Join(insts, " "))
+			} else if forall {
 				res = fmt.Sprintf("(and %s %s)", res, strings.Join(insts, " "))
 			} else {
 				res = fmt.Sprintf("(or %s %s)", res, strings.Join(insts, " "))
@@ -1712,4 +1778,123 @@ func renamedLoopVar(fn *ssa.Function, name string) string {
 		}
 	}
 	return ""
+}
+
+// reachingAtLoopHead: the SSA value that the source variable `name` holds on entry to the loop header, found by walking
+// up the dominator tree to the nearest reference or phi of that variable. Refuses (nil) when another value of the
+// variable could reach the header without passing through the chosen one (a merge whose phi was removed as dead).
+func reachingAtLoopHead(fn *ssa.Function, header *ssa.BasicBlock, name string, fr *frame) ssa.Value {
+	rv, _ := reachingAt(fn, header, false, name, fr)
+	return rv
+}
+
+// reachingAt: the value of the variable on entry to block `at` (atEnd false) or when control leaves it (atEnd true)
+// The second result is false when no value of the variable reaches the point at all (it is not in scope there).
+func reachingAt(fn *ssa.Function, header *ssa.BasicBlock, atEnd bool, name string, fr *frame) (ssa.Value, bool) {
+	isRef := func(ins ssa.Instruction) ssa.Value {
+		switch x := ins.(type) {
+		case *ssa.DebugRef:
+			if id, ok := x.Expr.(*ast.Ident); ok && !x.IsAddr && id.Name == name {
+				if ob := x.Object(); ob != nil && ob.Pkg() != nil && ob.Parent() == ob.Pkg().Scope() {
+					return nil
+				}
+				return x.X
+			}
+		case *ssa.Phi:
+			if x.Comment == name {
+				return x
+			}
+		}
+		return nil
+	}
+	var chosen ssa.Value
+	first := header.Idom()
+	if atEnd {
+		first = header
+	}
+	for b := first; b != nil && chosen == nil; b = b.Idom() {
+		for i := len(b.Instrs) - 1; i >= 0; i-- {
+			if rv := isRef(b.Instrs[i]); rv != nil {
+				chosen = rv
+				break
+			}
+		}
+	}
+	if chosen == nil {
+		return nil, false
+	}
+	if _, isC := chosen.(*ssa.Const); !isC {
+		if _, have := fr.vals[chosen]; !have {
+			return nil, true
+		}
+	}
+	// values merged into the chosen one
+	merged := map[ssa.Value]bool{}
+	var walk func(x ssa.Value)
+	walk = func(x ssa.Value) {
+		if merged[x] {
+			return
+		}
+		merged[x] = true
+		if phi, ok := x.(*ssa.Phi); ok {
+			for _, ed := range phi.Edges {
+				walk(ed)
+			}
+		}
+	}
+	walk(chosen)
+	var chosenBlk *ssa.BasicBlock
+	if ci, ok := chosen.(ssa.Instruction); ok {
+		chosenBlk = ci.Block()
+	}
+	reaches := func(from, to *ssa.BasicBlock) bool {
+		seen := map[int]bool{}
+		var dfs func(b *ssa.BasicBlock) bool
+		dfs = func(b *ssa.BasicBlock) bool {
+			if b == to {
+				return true
+			}
+			if seen[b.Index] {
+				return false
+			}
+			seen[b.Index] = true
+			for _, s := range b.Succs {
+				if dfs(s) {
+					return true
+				}
+			}
+			return false
+		}
+		return dfs(from)
+	}
+	for _, b := range fn.Blocks {
+		for _, ins := range b.Instrs {
+			rv := isRef(ins)
+			if rv == nil || merged[rv] {
+				continue
+			}
+			oi, ok := rv.(ssa.Instruction)
+			if !ok {
+				continue // a constant or parameter: the initial value, older than anything else
+			}
+			ob := oi.Block()
+			if chosenBlk != nil && ob != chosenBlk && ob.Dominates(chosenBlk) {
+				continue // older than the chosen value
+			}
+			if chosenBlk != nil && ob == chosenBlk {
+				continue // same block: the walk took the last reference in it
+			}
+			if !reaches(ob, header) {
+				continue // defined where the loop head cannot be reached from
+			}
+			if !atEnd && header.Dominates(ob) {
+				continue // defined inside or after the loop: not a value on entry
+			}
+			if atEnd && ob == header {
+				continue // same block as the exit: the walk took the last reference in it
+			}
+			return nil, true
+		}
+	}
+	return chosen, true
 }
